@@ -3,6 +3,7 @@
 package vaa
 
 import (
+	"fmt"
 	"bytes"
 	"testing"
 	"time"
@@ -69,6 +70,8 @@ func runC04(c c04Case) (*vh.Violation, vh.Outcome) {
 	if got := v.SerializeBody(); !bytes.Equal(got, wantBody) {
 		return vh.V("C04/body-layout", "SerializeBody differs from be32(ts) be32(nonce) be16(ec) be16(tc) addr32 be64(seq) u8(cl) payload: got %x want %x", trunc(got), trunc(wantBody)), o
 	}
+	// the signing body handed out now is looked at again at the very end, after other values were serialised
+	held := v.SerializeBody()
 	wantDigest := vh.RefDigest(wantBody)
 	if got := v.SigningMsg(); [32]byte(got) != wantDigest {
 		return vh.V("C04/digest-not-double-keccak", "SigningMsg %x != keccak(keccak(body)) %x", got, wantDigest), o
@@ -159,7 +162,77 @@ func runC04(c c04Case) (*vh.Violation, vh.Outcome) {
 			return vh.V("C04/not-injective", "two messages differing in %s share one digest", c.MutField), o
 		}
 	}
+	if !bytes.Equal(held, wantBody) {
+		return vh.V("C04/body-not-stable", "the signing body returned for a message changed after other messages were serialised (got %x want %x)", trunc(held), trunc(wantBody)), o
+	}
 	return nil, o
+}
+
+// Every honest guardian signs the same 32 bytes: digests computed concurrently for different messages (as the
+// processor, the p2p layer and the RPC server do) are each the digest of their own message.
+type c04ParCase struct {
+	Bodies []vh.BodyCase `json:"bodies"`
+	Rounds int           `json:"rounds"`
+}
+
+func runC04Par(c c04ParCase) (*vh.Violation, vh.Outcome) {
+	o := vh.Outcome{NonTrivial: len(c.Bodies) >= 2}
+	type job struct {
+		v    *VAA
+		body []byte
+		want [32]byte
+	}
+	var jobs []job
+	for _, bc := range c.Bodies {
+		b := bc.Body()
+		v := &VAA{Version: 1, Timestamp: time.Unix(int64(b.Timestamp), 0), Nonce: b.Nonce, EmitterChain: ChainID(b.EmitterChain), TargetChain: ChainID(b.TargetChain),
+			EmitterAddress: Address(b.Emitter), Sequence: b.Sequence, ConsistencyLevel: b.CL, Payload: b.Payload}
+		rb := vh.RefBody(b)
+		jobs = append(jobs, job{v, rb, vh.RefDigest(rb)})
+	}
+	errs := make(chan string, len(jobs))
+	done := make(chan struct{})
+	for i := range jobs {
+		go func(j job) {
+			defer func() { done <- struct{}{} }()
+			for r := 0; r < c.Rounds; r++ {
+				if got := j.v.SigningMsg(); [32]byte(got) != j.want {
+					select {
+					case errs <- "SigningMsg":
+					default:
+					}
+					return
+				}
+				if w, err := j.v.Marshal(); err != nil || !bytes.Equal(w[6:], j.body) {
+					select {
+					case errs <- "Marshal":
+					default:
+					}
+					return
+				}
+			}
+		}(jobs[i])
+	}
+	for range jobs {
+		<-done
+	}
+	select {
+	case what := <-errs:
+		return vh.V("C04/digest-depends-on-concurrent-use", "%s of a message returned another message's bytes while %d messages were serialised concurrently", what, len(jobs)), o
+	default:
+	}
+	return nil, o
+}
+
+func TestVerif_C04_Concurrent(t *testing.T) {
+	vh.Check(t, vh.Prop[c04ParCase]{ID: "C04", Gen: func(t *rapid.T) c04ParCase {
+		n := rapid.IntRange(2, 8).Draw(t, "n")
+		c := c04ParCase{Rounds: rapid.IntRange(20, 200).Draw(t, "rounds")}
+		for i := 0; i < n; i++ {
+			c.Bodies = append(c.Bodies, vh.GenBody(t, fmt.Sprintf("b%d", i), 0, 300, 0, 1, 1000, 1001))
+		}
+		return c
+	}, Run: runC04Par})
 }
 
 func nz32(d uint64) uint32 {
